@@ -194,22 +194,27 @@ func readI(i *bufio.Reader) (v int64, err error) {
 	if bs[0] == '?' {
 		return 0, errChunked
 	}
-	var s = int64(1)
+	var neg bool
+	var u, limit uint64 = 0, math.MaxInt64
 	if bs[0] == '-' {
-		s = -1
+		neg = true
+		limit++ // the magnitude of math.MinInt64
 		bs = bs[1:]
 	}
 	for _, c := range bs[:len(bs)-2] {
-		if d := int64(c - '0'); d >= 0 && d <= 9 {
-			if v > (math.MaxInt64-d)/10 { // one digit too many for an int64
+		if d := uint64(c - '0'); d <= 9 {
+			if u > (limit-d)/10 { // one digit too many for an int64
 				return 0, errors.New(unexpectedNumByte + strconv.Itoa(int(c)))
 			}
-			v = v*10 + d
+			u = u*10 + d
 		} else {
 			return 0, errors.New(unexpectedNumByte + strconv.Itoa(int(c)))
 		}
 	}
-	return v * s, nil
+	if neg {
+		return -int64(u), nil
+	}
+	return int64(u), nil
 }
 
 func readB(i *bufio.Reader) (*byte, int64, error) {
